@@ -149,6 +149,13 @@ func NewBitmapAllocator(pool net.IPNet, size int) (*Allocator, error) {
 
 		bitmap: bitset.New(1 << uint(allocOrder)),
 	}
+	// bitset.New returns an empty set when it cannot allocate that many bits
+	// (it recovers from the failing make): such a pool has no bitmap, every
+	// allocation without a hint would be refused and one with a hint would
+	// panic while growing the set
+	if alloc.bitmap.Len() != 1<<uint(allocOrder) {
+		return nil, errors.New("Can't fit this pool using the bitmap allocator")
+	}
 
 	return &alloc, nil
 }
